@@ -23,6 +23,7 @@ All data arrays are a pure function of the case (RandomState(vs)).
 """
 import json
 import os
+import signal
 import sys
 import traceback
 
@@ -980,11 +981,15 @@ def main():
         if req.get("cmd") == "quit":
             break
         case = req["case"]
+        # never outlive a dead parent in an endless kernel loop: the parent
+        # gives up long before this fires
+        signal.alarm(600)
         # a marker in the stderr file: the parent cuts the report after it
         sys.stderr.write("@@case %s\n" % req.get("id"))
         sys.stderr.flush()
         if req.get("fork"):
             _serve_forked(case, out)
+            signal.alarm(0)
             continue
         try:
             res = run_case(case)
@@ -994,6 +999,7 @@ def main():
                    "traceback": traceback.format_exc()[-3000:]}
         out.write(json.dumps(res) + "\n")
         out.flush()
+        signal.alarm(0)
     os.chdir("/")
     import shutil
     shutil.rmtree(scratch, ignore_errors=True)
